@@ -26,7 +26,13 @@ REDUCERS = {'wallace': adders.wallace_reducer, 'dada': adders.dada_reducer}
 
 
 def it_add2(c):
-    a, b = I(c['wa'], 'a'), I(c['wb'], 'b')
+    a = I(c['wa'], 'a')
+    b = a if c.get('same') else I(c['wb'], 'b')
+    if c.get('same'):
+        def fix(o):
+            return lambda ins: o(dict(ins, b=ins['a']))
+    else:
+        fix = lambda o: o
     f = ADD2[c['gen']]
     kw = {}
     if c['gen'] == 'cla_adder' and c.get('la'):
@@ -41,7 +47,7 @@ def it_add2(c):
     else:
         r = f(a, b, **kw)
         orc = lambda ins: {'r': ins['a'] + ins['b']}
-    return {'outs': {'r': r}, 'widths': {'r': max(c['wa'], c['wb']) + 1}, 'oracle': orc}
+    return {'outs': {'r': r}, 'widths': {'r': max(c['wa'], c['wb']) + 1}, 'oracle': fix(orc)}
 
 
 def it_csa(c):
@@ -64,26 +70,39 @@ def it_group(c):
     return {'outs': {'r': r}, 'oracle': orc}
 
 
+def _ab(c):
+    """the two operands; `same`: ONE WireVector object passed as both (squaring, doubling)"""
+    a = I(c['wa'], 'a')
+    if c.get('same'):
+        return a, a
+    return a, I(c['wb'], 'b')
+
+
+def _b(c, ins):
+    return ins['a'] if c.get('same') else ins['b']
+
+
 def it_tree(c):
-    a, b = I(c['wa'], 'a'), I(c['wb'], 'b')
+    a, b = _ab(c)
     r = multipliers.tree_multiplier(a, b, reducer=REDUCERS[c['red']], adder_func=ADD2[c.get('final', 'kogge_stone')])
-    return {'outs': {'r': r}, 'widths': {'r': c['wa'] + c['wb']}, 'oracle': lambda ins: {'r': ins['a'] * ins['b']}}
+    return {'outs': {'r': r}, 'widths': {'r': c['wa'] + c['wb']}, 'oracle': lambda ins: {'r': ins['a'] * _b(c, ins)}}
 
 
 def it_stree(c):
     wa, wb = c['wa'], c['wb']
-    a, b = I(wa, 'a'), I(wb, 'b')
+    a, b = _ab(c)
     if wa == 1 or wb == 1:
         c['expect_error'] = True
     r = multipliers.signed_tree_multiplier(a, b, reducer=REDUCERS[c['red']])
     return {'outs': {'r': r}, 'widths': {'r': wa + wb},
-            'oracle': lambda ins: {'r': unsigned_enc(signed_val(ins['a'], wa) * signed_val(ins['b'], wb), wa + wb)}}
+            'oracle': lambda ins: {'r': unsigned_enc(signed_val(ins['a'], wa) * signed_val(_b(c, ins), wb), wa + wb)}}
 
 
 def it_fma(c):
-    a, b, d = I(c['wa'], 'a'), I(c['wb'], 'b'), I(c['wc'], 'c')
+    a, b = _ab(c)
+    d = I(c['wc'], 'c')
     r = multipliers.fused_multiply_adder(a, b, d, reducer=REDUCERS[c['red']])
-    return {'outs': {'r': r}, 'oracle': lambda ins: {'r': ins['a'] * ins['b'] + ins['c']}}
+    return {'outs': {'r': r}, 'oracle': lambda ins: {'r': ins['a'] * _b(c, ins) + ins['c']}}
 
 
 def it_gfma(c):
@@ -150,6 +169,15 @@ def cases(tier, seed):
         for ws in itertools.combinations_with_replacement((1, 2, 3) if tier == 'quick' else (1, 2, 3, 5), k):
             for red in REDUCERS:
                 out.append({'item': 'group', 'ws': list(ws), 'red': red, 'final': ('kogge_stone', 'ripple_add')[(k + sum(ws)) % 2]})
+    # the same WireVector object as both operands (squaring, doubling)
+    for w in ((1, 2, 3, 4, 5) if tier == 'quick' else range(1, 9)):
+        for red in REDUCERS:
+            out.append({'item': 'tree', 'wa': w, 'wb': w, 'red': red, 'final': 'kogge_stone', 'same': True})
+            out.append({'item': 'fma', 'wa': w, 'wb': w, 'wc': w + 1, 'red': red, 'same': True})
+            if w > 1:
+                out.append({'item': 'stree', 'wa': w, 'wb': w, 'red': red, 'same': True})
+        for gen in ADD2:
+            out.append({'item': 'add2', 'gen': gen, 'wa': w, 'wb': w, 'cin': None, 'same': True})
     M = 6 if tier == 'quick' else 8
     for wa, wb in itertools.product(range(1, M + 1), repeat=2):
         for red in REDUCERS:
